@@ -232,6 +232,23 @@ class WEval:
             return ("buf", len(elems), {i: v for i, v in enumerate(elems)})
         if t == "idx":
             b = self.ev(n[3], env, pc, st)
+            rng = H.strip(n[4])
+            if b[0] == "vecbuf" and H.tag(rng) in ("struct", "path", "call") and "::Range" in (rng[1] if H.tag(rng) != "call" else (H.call_path(rng) or "")) and "::ops::" in (rng[1] if H.tag(rng) != "call" else (H.call_path(rng) or "")):
+                # a sub-slice of a staging buffer: only its length matters for byte accounting
+                total = b[2][0]
+                flds = {k: self.ev(v, env, pc, st) for k, v in rng[2]} if H.tag(rng) == "struct" else {}
+                if H.tag(rng) == "call":  # RangeInclusive::new(a, b)
+                    a_ = [self.ev(x, env, pc, st) for x in H.call_args(rng)]
+                    flds = {"start": a_[0], "end": self.arith("Add", a_[1], ("aff", 0, 1, "usize"), "usize", pc, st)} if len(a_) == 2 else {}
+                start = flds.get("start", ("aff", 0, 0, "usize"))
+                end = flds.get("end", total)
+                if not (is_aff(start) and is_aff(end)):
+                    raise Unk("slice bounds")
+                ln = ("aff", end[1] - start[1], end[2] - start[2], "usize")
+                if not pc.split_at_value(ln, 0) or pc.split_at_value(("aff", end[1] - total[1], end[2] - total[2], None), 1):
+                    st.events.append(("panic", "slice bounds outside the staged bytes"))
+                    raise Abort()
+                return ("vecbuf", {"slice": True}, [ln])
             i = self.ev(n[4], env, pc, st)
             if is_aff(i) and i[1] == 0 and b[0] in ("bytes", "buf"):
                 return ("byte", b, i[2])
@@ -340,7 +357,10 @@ class WEval:
         args = H.call_args(n)
         last = p.split("::")[-1]
         if last == "with_capacity":
-            self.ev(args[0], env, pc, st)
+            try:
+                self.ev(args[0], env, pc, st)
+            except Unk:
+                pass  # a capacity hint has no effect on the bytes written
             return ("vecbuf", {}, [("aff", 0, 0, "usize")])
         if last in ("Ok", "Some"):
             return self.ev(args[0], env, pc, st) if args else ("unit",)
